@@ -6,6 +6,7 @@ import (
 	"net"
 	"os"
 	"path/filepath"
+	"pgregory.net/rapid"
 	"sync/atomic"
 	"time"
 
@@ -65,6 +66,19 @@ func (m Modes) OptionsWith(n *Net, body func() rpc.Codec) *rpc.Options {
 		o.HeaderEncoder = m.Enc
 	}
 	return o
+}
+
+// DrawBuffers draws the buffer dimensions every Session-based check shares - the library must
+// behave the same whatever they are: server read buffers smaller than some messages (pool size
+// classes or not), the client's buffer size on the byte link, and the server's context-buffer
+// mode. (Seeded changes to the buffer handling were repeatedly missed by a check that never left
+// the default sizes and caught by a neighbour that did.)
+func DrawBuffers(t *rapid.T, m *Modes) {
+	m.SrvBuf = rapid.SampledFrom([]int{0, 0, 0, 100, 128, 3000, 4096}).Draw(t, "srv_buf")
+	m.CliBuf = rapid.SampledFrom([]int{0, 0, 0, 100, 3000, 4096}).Draw(t, "cli_buf")
+	if !m.CtxBuf {
+		m.CtxBuf = rapid.IntRange(0, 3).Draw(t, "ctx_buf_mode") == 0
+	}
 }
 
 var sessSeq int64
@@ -158,8 +172,8 @@ func (s *Session) Dial() (*rpc.Conn, error) {
 		if s.OnLink != nil {
 			s.OnLink(link)
 		}
-		s.served = append(s.served, ServeLinkWith(s.Srv, link, s.M.Enc, s.M.SrvDirect, s.SrvCodec()))
-		conn = rpc.NewConnWithCodec(rpc.NewClientCodec(s.CliCodec(), HeaderEncoder(s.M.Enc), link.C, 0))
+		s.served = append(s.served, ServeLinkBuf(s.Srv, link, s.M.Enc, s.M.SrvDirect, s.SrvCodec(), s.M.SrvBuf))
+		conn = rpc.NewConnWithCodec(rpc.NewClientCodec(s.CliCodec(), HeaderEncoder(s.M.Enc), link.C, s.M.CliBuf))
 	}
 	if s.M.CliPipelining {
 		conn.SetPipelining(true)
